@@ -3,7 +3,7 @@
 import sys
 import types
 
-sys.path.insert(0, "/repo")
+sys.path.insert(0, __import__("os").environ.get("VERIF_REPO", "/repo"))
 import numpy as np
 import scipy.sparse as sps
 
